@@ -274,24 +274,89 @@ Definition ugen_method (m : meth) (x : arg) (args : list arg) : M arg :=
 (* _multichannel_perform(selector, *args):
      l = [ugen_param(i) for i in self]
      l = [getattr(i[0], selector)( *i[1:]) for i in flop([l, *args])]
-   a nested ChannelList element performs recursively; numbers answer lag/lag2/lag3/lagud/slew
-   with themselves (UGenScalar.lag ...) and clip with builtins.clip (numeric kernel of C15: not
-   modelled here); other objects have no such attribute. *)
-Fixpoint mc_perform_f (fuel : nat) (m : meth) (self : list arg) (args : list arg) : M arg :=
-  match fuel with
-  | O => raise OutOfFuel
-  | S f =>
-    bind (mapM (fun row => match row with
-                           | Scalar (U u c) :: rest => ugen_method m (Scalar (U u c)) rest
-                           | Scalar (K z) :: rest => match m with MClip _ => raise NotModelled
-                                                                 | _ => ret (Scalar (K z)) end
-                           | Lst (x :: l) :: rest => mc_perform_f f m (x :: l) rest
-                           | _ => raise AttributeError
-                           end) (flop (Lst self :: args)))
-         (fun r => ret (Lst r))
+   [leaf x rest] is getattr(ugen_param(x), selector)( *rest) for an element x that is not a
+   list (a UGen's own method, UGenScalar's method for a number, AttributeError otherwise): a
+   parameter, so that the expansion is modelled for EVERY selector; a nested (non-empty)
+   ChannelList element performs recursively; the [] that flop puts in the place of an empty
+   receiver is a plain list and has no such attribute. *)
+Section McPerform.
+  Variable leaf : arg -> list arg -> M arg.
+  Definition mc_row (rec : list arg -> list arg -> M arg) (row : list arg) : M arg :=
+    match row with
+    | Lst (x :: l) :: rest => rec (x :: l) rest
+    | Lst [] :: _ => raise AttributeError
+    | x :: rest => leaf x rest
+    | [] => raise AttributeError
+    end.
+  Fixpoint mc_perform_gen_f (fuel : nat) (self : list arg) (args : list arg) : M arg :=
+    match fuel with
+    | O => raise OutOfFuel
+    | S f => bind (mapM (mc_row (mc_perform_gen_f f)) (flop (Lst self :: args))) (fun r => ret (Lst r))
+    end.
+  Definition mc_perform_gen (self : list arg) (args : list arg) : M arg :=
+    mc_perform_gen_f (S (ldepth (Lst self))) self args.
+End McPerform.
+(* the selectors whose UGen method goes straight to a constructor; numbers answer
+   lag/lag2/lag3/lagud/slew with themselves (UGenScalar.lag ...) and clip/fold/wrap/moddif with
+   a numeric kernel of builtins (property C15: not modelled here) *)
+Definition leaf_method (m : meth) (x : arg) (rest : list arg) : M arg :=
+  match x with
+  | Scalar (U u c) => ugen_method m (Scalar (U u c)) rest
+  | Scalar (K z) => match m with MClip _ => raise NotModelled | _ => ret (Scalar (K z)) end
+  | _ => raise AttributeError
   end.
 Definition mc_perform (m : meth) (self : list arg) (args : list arg) : M arg :=
-  mc_perform_f (S (ldepth (Lst self))) m self args.
+  mc_perform_gen (leaf_method m) self args.
+
+(* ---- ChannelList.dup / sum / poll / dpoll ------------------------------------------- *)
+(* dup(n): ChannelList([self] * n): no unit is created *)
+Definition cl_dup (self : list arg) (n : nat) : M arg := ret (Lst (repeat (Lst self) n)).
+(* x + y on two non-sequences INCLUDING BinaryOpUGen._new1's shortcuts for '+'
+   (a == 0 -> b, b == 0 -> a), which sum() always meets because it starts from 0 *)
+Definition add0 (cls : Z) (x y : arg) : M arg :=
+  match x, y with
+  | Scalar (K a), Scalar (K b) => ret (Scalar (K (a + b)))
+  | Scalar (Str _), _ | _, Scalar (Str _) => raise TypeError
+  | Scalar (K 0%Z), _ => ret y
+  | _, Scalar (K 0%Z) => ret x
+  | _, _ => multi_new (new1_plain cls 1) [x; y]
+  end.
+(* sum(): list_sum(self, type(self)):  res = 0; for item in lst: res = list_binop(add, res, item, t) *)
+Definition cl_sum (cls : Z) (self : list arg) : M arg :=
+  fold_left (fun res item => bind res (fun r => list_binop (add0 cls) r item KList)) self
+            (ret (Scalar (K 0%Z))).
+(* Poll._new1(rate, trig, input, label, trig_id): a numeric trig becomes Impulse.<rate>(trig, 0)
+   (one more unit, created first); the unit's inputs are trig, input, trig_id, len(label), *label,
+   recorded here as [trig; input; trig_id; label] (the harness decodes the bytes back).
+   Dpoll._new1(rate, input, label, run, trig_id): inputs input, trig_id, run, label.
+   A label that is None or '' is replaced by a default naming the input's type: the callers of
+   this model always give labels.  Receivers are audio-rate units, so rate = 'audio' per channel
+   (the list of rates that Poll.new passes has the length of the receiver and changes nothing). *)
+Definition poll_new1 (poll impulse : Z) (args : list arg) : M arg :=
+  match args with
+  | [trig; input; label; tid] =>
+    bind (match trig with
+          | Scalar (K z) => multi_new (new1_plain impulse 1) [trig; Scalar (K 0%Z)]
+          | _ => ret trig
+          end) (fun trig' => new1_plain poll 1 [trig'; input; tid; label])
+  | _ => raise TypeError
+  end.
+Definition dpoll_new1 (dpoll : Z) (args : list arg) : M arg :=
+  match args with
+  | [input; label; run; tid] => new1_plain dpoll 1 [input; tid; run; label]
+  | _ => raise TypeError
+  end.
+(* ChannelList.poll(trig, label, trig_id): label None -> ['ChannelList UGen [i]' for i < len(self)]
+   ([deflabels], supplied with that length); Poll.new(trig, self, label, trig_id) returns self *)
+Definition none_arg : arg := Scalar (Str 0%Z).
+Definition is_none (a : arg) : bool := match a with Scalar (Str 0%Z) => true | _ => false end.
+Definition cl_poll (poll impulse : Z) (self : list arg) (trig label tid : arg) (deflabels : list arg) : M arg :=
+  let label' := if is_none label then Lst deflabels else label in
+  bind (multi_new (poll_new1 poll impulse) [trig; Lst self; label'; tid]) (fun _ => ret (Lst self)).
+(* ChannelList.dpoll(label, run, trig_id): dmd.Dpoll(self, label, run, trig_id) -> Dpoll.dr(...) *)
+Definition cl_dpoll (dpoll : Z) (self : list arg) (label run tid : arg) (deflabels : list arg) : M arg :=
+  let label' := if is_none label then Lst deflabels else label in
+  multi_new (dpoll_new1 dpoll) [Lst self; label'; run; tid].
 
 (* MulAdd.new(input, mul, add) -> _multi_new(rate, input, mul, add); constants 0, 1, -1 for mul/add
    trigger _new1 shortcuts (C01) and are excluded by callers; inputs are audio-rate units. *)
@@ -342,7 +407,30 @@ End Silence.
 Definition out_kr (out : Z) (bus output : arg) : M arg :=
   multi_new (new1_plain out 1) (bus :: as_list output).
 
-(* deep replacement as a pure function, given the silence value used at each list *)
+(* _replace_zeroes_with_silence as a pure function of the uid [n] of the next unit: the result
+   and the uid after it.  One DC unit per list reached through lists, numbered in pre-order. *)
+Fixpoint rzp (n : nat) (a : arg) : arg * nat :=
+  match a with
+  | Lst l =>
+    let silence := Scalar (U n 0) in
+    let '(l', n') :=
+      (fix go (l : list arg) (n : nat) : list arg * nat :=
+         match l with
+         | [] => ([], n)
+         | x :: r =>
+           let '(x', n1) := match x with
+                            | Scalar (K 0%Z) => (silence, n)
+                            | Lst _ => rzp n x
+                            | _ => (x, n)
+                            end in
+           let '(r', n2) := go r n1 in (x' :: r', n2)
+         end) l (S n) in
+    (Lst l', n')
+  | _ => (a, n)
+  end.
+(* number of lists reachable through lists = number of DC units created *)
+Fixpoint nlists (a : arg) : nat :=
+  match a with Lst l => S (list_sum (map nlists l)) | _ => 0 end.
 Fixpoint has_zero (a : arg) : bool :=
   match a with
   | Scalar (K 0%Z) => true
